@@ -258,4 +258,17 @@ theorem refines_Transaction : ∀ b, RefinesP PV (SrcTx.Transaction b false) (tr
   | 0 => by intro s v s' h; simp [transactionF, failC] at h
   | b+1 => refines_Transaction_step b (refines_Transaction b)
 
+/-! ### message descriptors (the budget of the spec's `transaction` is 3) -/
+
+theorem refines_InMsg : RefinesP PV (SrcTx.InMsg 3 false) inMsg (view_InMsg (view_Transaction 3)) := by
+  have htx : RefinesEP PV (SrcTx.Transaction 3 false) transaction (view_Transaction 3) := (refines_Transaction 3).toE
+  tx_refine [inMsg, inMsgAlts, SrcTx.InMsg, view_InMsg, refKP (r := SrcTx.MessageAny) refines_Message,
+    refKP (r := SrcTx.MsgEnvelope) refines_MsgEnvelope.toE, refKP (r := SrcTx.Transaction 3) htx]
+
+theorem refines_OutMsg : RefinesP PV (SrcTx.OutMsg 3 false) outMsg (view_OutMsg (view_Transaction 3)) := by
+  have htx : RefinesEP PV (SrcTx.Transaction 3 false) transaction (view_Transaction 3) := (refines_Transaction 3).toE
+  tx_refine [outMsg, outMsgAlts, SrcTx.OutMsg, view_OutMsg, refKP (r := SrcTx.MessageAny) refines_Message,
+    refKP (r := SrcTx.MsgEnvelope) refines_MsgEnvelope.toE, refKP (r := SrcTx.Transaction 3) htx,
+    refKP (r := SrcTx.InMsg 3) refines_InMsg.toE]
+
 end TonVerif.Tlb.Tx
